@@ -140,7 +140,7 @@ func (c *Ctx) machineOK(m *dtab.Machine, rule, site string, fd *ast.FuncDecl) bo
 func CheckC07(c *Ctx) {
 	run := c.Run
 	run.Technique = "decision-table extraction (Engine D): symbolic execution of the loop-free decision closures into guarded commands, evaluated exhaustively on the finite abstract domains their atoms induce (actions {Sell,Hold,Buy}; vote counts for k<=6; orderings of the remembered level against the close) and compared point by point with the documented function"
-	run.Explanation = "Inverse (3 points), Split (9), the MACD-RSI combiner (9) are compared point by point with the documented functions; And/Or/Majority vote predicates are evaluated on every tally (buy, hold, sell) with buy+hold+sell = k for k = 1..6, which realises every consistent weak ordering of the compared quantities (the predicates only compare them); CountActions is shown to take exactly one action from every source per position and to increment exactly one counter per action, and every source to pass through DenormalizeActions; the No-Loss and Stop-Loss closures are extracted as transducers over action x {not invested, invested} x ordering(level, close) and compared with the specification transducer (outputs and updates of the remembered level), from which the safety statements follow for all histories because the transducer is finite. Comparison is semantic: branch order or if/switch style do not matter. The behaviour of the wrapped strategies themselves and float rounding are not decided."
+	run.Explanation = "Inverse (3 points), Split (9), the MACD-RSI combiner (9) are compared point by point with the documented functions; And/Or/Majority vote predicates are evaluated on every tally (buy, hold, sell) with buy+hold+sell = k for k = 1..6, which realises every consistent weak ordering of the compared quantities (the predicates only compare them); CountActions is shown to take exactly one action from every source per position and to increment exactly one counter per action, and every source to pass through DenormalizeActions; the No-Loss and Stop-Loss closures are extracted as transducers over action x {not invested, invested} x ordering(level, close) and compared with the specification transducer (outputs and updates of the remembered level), from which the safety statements follow for all histories because the transducer is finite. Comparison is semantic: branch order or if/switch style do not matter. The behaviour of the wrapped strategies themselves and float rounding are not decided. No-Loss and Stop-Loss are compared with the documented step written as a conditional expression, for every wrapped action and every ordering of close, remembered level and 0 (including non-positive closings), outputs and level updates alike."
 	run.Trusted = []string{"go/types", "specification tables in rules/c07_c08.go (DESIGN appendix C)", "closing prices are positive (the level 0 encodes 'not invested')"}
 
 	// Inverse
@@ -561,13 +561,13 @@ func (c *Ctx) countActionsTable() {
 var lossSpecs = []stepSpec{
 	{Site: "strategy/decorator.(*NoLossStrategy).Compute", Callee: "helper.Operate", Rule: "decision-table",
 		Params: []string{"a", "c"}, State: []string{"level"}, Enum: map[string][]string{"a": {"Buy", "Hold", "Sell"}},
-		Let: [][2]string{{"OPEN", "(level == 0 && a == Buy)"}, {"CLOSE", "(level != 0 && a == Sell && level < c)"}},
+		Let:     [][2]string{{"OPEN", "(level == 0 && a == Buy)"}, {"CLOSE", "(level != 0 && a == Sell && level < c)"}},
 		Updates: map[string]string{"level": "ite(OPEN, c, ite(CLOSE, 0, level))"},
 		Out:     "ite(OPEN, Buy, ite(CLOSE, Sell, Hold))",
 		Doc:     "Buy when not invested and the wrapped strategy says Buy (remember the close); Sell when invested, the wrapped strategy says Sell and the close is above the purchase close; Hold otherwise"},
 	{Site: "strategy/decorator.(*StopLossStrategy).Compute", Callee: "helper.Operate", Rule: "decision-table",
 		Params: []string{"a", "c"}, State: []string{"level"}, Enum: map[string][]string{"a": {"Buy", "Hold", "Sell"}},
-		Let: [][2]string{{"OPEN", "(level == 0 && a == Buy)"}, {"CLOSE", "(level != 0 && (a == Sell || c <= level))"}},
+		Let:     [][2]string{{"OPEN", "(level == 0 && a == Buy)"}, {"CLOSE", "(level != 0 && (a == Sell || c <= level))"}},
 		Updates: map[string]string{"level": "ite(OPEN, c * (1 - Percentage), ite(CLOSE, 0, level))"},
 		Out:     "ite(OPEN, Buy, ite(CLOSE, Sell, Hold))",
 		Doc:     "Buy when not invested and the wrapped strategy says Buy (remember close*(1-percentage)); Sell when invested and the wrapped strategy says Sell or the close is at or below the stop level; Hold otherwise"},
